@@ -21,6 +21,7 @@ import (
 	"github.com/refraction-networking/conjure/pkg/station/liveness"
 	"github.com/refraction-networking/conjure/pkg/station/log"
 	"github.com/refraction-networking/conjure/pkg/transports"
+	"github.com/refraction-networking/conjure/pkg/verifhook"
 
 	pb "github.com/refraction-networking/conjure/proto"
 	"google.golang.org/protobuf/proto"
@@ -845,6 +846,7 @@ func (r *RegisteredDecoys) removeRegistration(index string) *regExpireLogMsg {
 //
 // returns the number of expired registrations total and the number marked valid
 func (r *RegisteredDecoys) removeOldRegistrations(logger *log.Logger) (int, int) {
+	verifhook.Yield("sweep.collect", r)
 	var expiredRegTimeoutIndices = r.getExpiredRegistrations()
 
 	logger.Debugf("cleansing registrations - registrations: %d, timeouts: %d, expired: %d",
@@ -853,6 +855,7 @@ func (r *RegisteredDecoys) removeOldRegistrations(logger *log.Logger) (int, int)
 	expiredValid := 0
 	for _, idx := range expiredRegTimeoutIndices {
 
+		verifhook.Yield("sweep.remove", r)
 		stats := r.removeRegistration(idx)
 		if stats != nil {
 			if stats.Valid {
